@@ -1,6 +1,9 @@
 package term
 
-import "math/bits"
+import (
+	"fmt"
+	"math/bits"
+)
 
 func minS(w int) int64 {
 	if w >= 64 {
@@ -324,4 +327,24 @@ func (b *B) RangeConstraint(v *Node) *Node {
 		return nil
 	}
 	return b.mk(&Node{Op: OpBAnd, W: 0, Args: cs})
+}
+
+// VarView returns a node that denotes the same variable as v (same SMT symbol,
+// same value under every model) but carries the tighter unsigned interval
+// [lo, hi]. It may only be used where the path condition implies that interval.
+func (b *B) VarView(v *Node, lo, hi uint64) *Node {
+	k := key{op: OpVar, w: v.W, name: v.Name, k: lo, k2: 2, a0: -1, a1: -1, a2: -1, extra: fmt.Sprint(hi)}
+	if n, ok := b.tab[k]; ok {
+		return n
+	}
+	n := &Node{Op: OpVar, W: v.W, Name: v.Name, K2: 2}
+	n.ID = b.nextID
+	b.nextID++
+	m := mask(v.W)
+	n.ULo, n.UHi = lo, hi
+	n.SLo, n.SHi = minS(v.W), maxS(v.W)
+	_ = m
+	b.refine(n)
+	b.tab[k] = n
+	return n
 }
